@@ -12,7 +12,7 @@ open Complete Drv
   method <typename> <mname>                      explicitly declared method (any receiver)
   var|func|const <name> <ty>                     bind in main
   import <alias> <nb> {name ty}* <nt> {name ty}* import constant in main
-  complete <pos> <cp,cp,..|-> [# comment]
+  complete <pos> <cp,cp,..|-> [# comment]      pos = cursor as an index in runes (liner)
  ty ::= B | N <typename> | P ty | I <k> m* | X
 -/
 
@@ -135,7 +135,7 @@ def stepC36 (d : DState) (line : String) : DState × String :=
     let idx := d.st.imports.length
     let st := { d.st with imports := d.st.imports ++ [⟨bs, tys⟩] }
     ({ d with st := mainBind st (cps alias) (.imp idx) }, "ok")
-  | "complete" :: pos :: l :: _ | "completeb" :: pos :: l :: _ =>
+  | "complete" :: pos :: l :: _ =>
     let lineCps : Str := if l == "-" then [] else (l.splitOn ",").map String.toNat!
     (d, showAnswer (interpCompleteWords cl Gen.completeKeywords d.st lineCps pos.toInt!))
   | _ => (d, "bad-op")
